@@ -53,6 +53,8 @@ theorem pres_iterDescendants (fuel) (n) : Pres (iterDescendants fuel n) := by
   | zero => unfold iterDescendants; pres_auto
   | succ _ ih => unfold iterDescendants; repeat' (first | (with_reducible apply ih) | pres_step)
 macro_rules | `(tactic| pres_lemma) => `(tactic| with_reducible apply pres_iterDescendants)
+theorem pres_deleteEnter (t self es) : Pres (deleteEnter t self es) := by unfold deleteEnter; pres_auto
+macro_rules | `(tactic| pres_lemma) => `(tactic| with_reducible apply pres_deleteEnter)
 theorem pres_deleteElems (t self es) : Pres (deleteElems t self es) := by unfold deleteElems; pres_auto
 macro_rules | `(tactic| pres_lemma) => `(tactic| with_reducible apply pres_deleteElems)
 
